@@ -6,4 +6,5 @@ CONSTANTS
   TOLR = 0
   TOLP = 0
   EMIT = TRUE
+  EMITSOL = FALSE
 CHECK_DEADLOCK FALSE
